@@ -1,5 +1,5 @@
-\* exhaustive design check over the domain in which the design holds: CumulativeFeeUsed empty (nothing in the node
-\* sets it), chain-id names without the separator; lists of <= 4 entries over 3 elements
+\* exhaustive design check: lists of <= 4 entries over 3 elements, receipts with <= 1 event and CumulativeFeeUsed of
+\* length 0/1, chain-id names of <= 2 characters over {"/", a} (ids with the separator are refused by the encoder)
 SPECIFICATION Spec
 CONSTANTS
   MaxList = 4
@@ -7,8 +7,8 @@ CONSTANTS
   MaxEv = 1
   MaxRcpt = 1
   CodecStatuses = {"SUCCESS", "ERROR"}
-  CumLens = {0}
-  NameChars = {1, 2}
+  CumLens = {0, 1}
+  NameChars = {0, 1}
   MaxName = 2
 VIEW view
 INVARIANTS TypeOK Binding SignExcludesOnlySign StoreCoversCommitment RootCollisionsArePadOnly DistinctElementsBind BloomListsBind
